@@ -127,5 +127,16 @@ MANIFEST_TEXT.update({
     },
 })
 
+MANIFEST_TEXT.update({
+    "C20": {
+        "level": "Narrowed claim: bounded model checking of the verdict algebra only - for every pair and triple of verdicts "
+                 "combination is Invalid-absorbing and Unknown-dominates-Valid (commutative, associative), predicates agree with "
+                 "their definitions. Exhaustive for this finite domain, decided by the solver over symbolic selectors.",
+        "note": "The accept/reject core (compare_layouts -> abi_stable) cannot be encoded: the Kani compiler ICEs on it. Mutants of "
+                "that core are outside this check.",
+        "technique": BMC + " (finite verdict domain, symbolic selectors)",
+    },
+})
+
 NOT_YET = {k: "check under construction at this commit (planned in DESIGN.md section 5); not claimed yet" for k in
-           ["C09", "C17", "C20"]}
+           ["C09", "C17"]}
